@@ -225,6 +225,18 @@ NOOP_KINDS = ['gate', 'yield']
 TAG = {'split': 0, 'domain': 1, 'forward': 2, 'date': 3, 'mid': 4, 'received': 5, 'self': 6, 'keepsplit': 7}
 
 
+def to_rule(sp):
+    """JSON-able rule description -> the arguments of Forward.add_mapping: pattern as a string or pre-compiled (with flags),
+    repl a template or a function, count"""
+    pat = re.compile(sp['pat'], sp.get('flags', 0)) if sp.get('compiled') or sp.get('flags') else sp['pat']
+    return (pat, _same if sp.get('fn') else sp['repl'], sp.get('count', 0))
+
+
+def rules_of(rs):
+    """the rule list of a Forward entry of a chain: an index into RULESETS or an explicit list of rule descriptions"""
+    return RULESETS[rs] if isinstance(rs, int) else [to_rule(sp) for sp in rs]
+
+
 def gen_rcpts(rng):
     r = rng.random()
     if r < 0.1:
@@ -249,15 +261,15 @@ def build_policies(chain):
             out.append(RecipientDomainSplit())
         elif kind == 'forward':
             f = Forward()
-            for pat, repl, count in RULESETS[rs]:
+            for pat, repl, count in rules_of(rs):
                 f.add_mapping(pat, repl, count)
             out.append(f)
         elif kind == 'date':
             out.append(AddDateHeader())
         elif kind == 'mid':
-            out.append(AddMessageIdHeader(hostname='mid.example'))
+            out.append(AddMessageIdHeader(hostname=rs or 'mid.example'))
         elif kind == 'received':
-            out.append(AddReceivedHeader())
+            out.append(AddReceivedHeader(date_format=rs) if rs else AddReceivedHeader())
         elif kind == 'self':
             out.append(ReturnSelf())
         elif kind == 'prepend':
@@ -292,7 +304,7 @@ def fwd_one(rules, r):
 
 def subn_table(chain, rcpts):
     """answers of re.subn for every (rule, address) that can arise: closure over the Forward policies of the chain"""
-    fwd = [(i, RULESETS[rs]) for i, (kind, rs) in enumerate(chain) if kind == 'forward']
+    fwd = [(i, rules_of(rs)) for i, (kind, rs) in enumerate(chain) if kind == 'forward']
     seen = set(rcpts)
     rows = {}
     for _ in range(len(fwd)):
@@ -309,7 +321,7 @@ def model_chain(chain):
     out = []
     for i, (kind, rs) in enumerate(chain):
         if kind == 'forward':
-            out.append([2, [i * 100 + j for j in range(len(RULESETS[rs]))]])
+            out.append([2, [i * 100 + j for j in range(len(rules_of(rs)))]])
         elif kind in NOOP_KINDS:      # test-only policies that only yield: no-ops for one message
             continue
         else:
@@ -407,7 +419,7 @@ def run_case(ctx, chain, sender, rcpts, headers, body, mode):
         obs.append(((e is orig['env'], e.recipients is orig['rcpts'], e.headers is orig['headers'], e.client is orig['client']),
                     snd, tuple(rc), tuple(masked), msg))
     # ---- property oracle
-    fwd_rules = [RULESETS[rs] for kind, rs in chain if kind == 'forward']
+    fwd_rules = [rules_of(rs) for kind, rs in chain if kind == 'forward']
     want = []
     for r in rcpts:
         for rules in fwd_rules:
@@ -840,6 +852,199 @@ def run_sequences(ctx, rng):
     ctx.count('state-across-messages-sequences', len(cases))
 
 
+# ------------------------------------------------------------------ configuration calls interleaved with messages
+RULE_POOL = [
+    dict(pat=r'^a@x\.com$', repl='alias@y.org'),
+    dict(pat=r'@y\.org$', repl='@archive.example'),
+    dict(pat=r'@X\.COM$', flags=re.I, compiled=True, repl='@ci.example'),
+    dict(pat=r'o', repl='0', count=1),
+    dict(pat=r'^([^@]*)@', repl=r'\1+fwd@'),
+    dict(pat=r'^nodomain$', compiled=True, repl='fixed@z.net'),
+    dict(pat=r'@x\.com$', fn=True, repl='<same text>'),
+    dict(pat=r'(?i)^B@', repl='bee@'),
+    dict(pat=r'^$', repl='empty@was.here'),
+    dict(pat=r'\.', repl='-', count=2, compiled=True),
+]
+DATE_FORMATS = ['%a, %d %b %Y %H:%M:%S +0000', '%Y-%m-%d', 'on %d.%m.%Y at %H:%M']
+HOSTNAMES = ['mid.example', 'other.example', 'third.example']
+CFG_RCPTS = [['a@x.com', 'd@y.org'], ['b@x.com', 'c@X.COM', 'nodomain', 'e@Y.org'], ['a@x.com', 'B@x.com', 'f@Y.Org', ''], ['nodomain']]
+CFG_CHAINS = [['forward'], ['split', 'forward'], ['forward', 'domain'], ['domain', 'forward', 'received', 'mid'], ['received', 'forward', 'split'],
+              ['forward', 'forward'], ['forward', 'split', 'forward', 'date'], ['received', 'mid'], ['domain', 'received', 'received']]
+_UUID = re.compile(r'<[0-9a-f]{32}\.')
+
+
+def full_obs(e, orig):
+    """as envelope_obs with the generated header texts kept (the uuid of a Message-Id masked): they depend on the configuration"""
+    items = tuple((k, _UUID.sub('<UUID.', str(v))) for k, v in e.headers.items())
+    return ((e is orig['env'], e.recipients is orig['rcpts'], e.headers is orig['headers'], e.client is orig['client']),
+            e.sender, tuple(e.recipients), items, e.message)
+
+
+def cfg_scripts(rng, n_random):
+    """scripts: ['rule', position in the chain, rule] / ['set', position, attribute, value] / ['msg', message]"""
+    out = []
+
+    def msg(i, rcpts):
+        return dict(sender='s%d@example.com' % i, rcpts=list(rcpts), headers=[['Subject', 'message %d' % i]], body=b'body of message %d\r\n' % i)
+    for ks in CFG_CHAINS:
+        fpos = [i for i, k in enumerate(ks) if k == 'forward']
+        rpos = [i for i, k in enumerate(ks) if k == 'received']
+        mpos = [i for i, k in enumerate(ks) if k == 'mid']
+        shapes = []
+        if fpos:
+            f0, f1 = fpos[0], fpos[-1]
+            # configure, use, add a rule, use; first use with no rule at all; a rule after every message; rules added to two Forwards in turn
+            shapes.append([('rule', f0, 0), ('msg', 0), ('rule', f1, 1), ('msg', 0), ('msg', 1), ('rule', f0, 2), ('msg', 1), ('msg', 2)])
+            shapes.append([('msg', 0), ('rule', f0, 1), ('msg', 0), ('rule', f1, 0), ('msg', 0)])
+            shapes.append([('rule', f0, 3), ('rule', f0, 4), ('msg', 2), ('rule', f1, 5), ('msg', 1), ('rule', f0, 7), ('msg', 2), ('rule', f1, 8), ('msg', 2)])
+            shapes.append([('rule', f1, 6), ('msg', 0), ('rule', f0, 0), ('msg', 0), ('rule', f1, 9), ('msg', 1)])
+        if rpos or mpos:
+            sh = [('msg', 0)]
+            for j in (1, 2):
+                for p in rpos:
+                    sh.append(('set', p, 'date_format', DATE_FORMATS[j]))
+                for p in mpos:
+                    sh.append(('set', p, 'hostname', HOSTNAMES[j]))
+                sh.append(('msg', j % 2))
+            shapes.append(sh)
+        for sh in shapes:
+            script = []
+            n = 0
+            for st in sh:
+                if st[0] == 'rule':
+                    script.append(['rule', st[1], RULE_POOL[st[2]]])
+                elif st[0] == 'set':
+                    script.append(['set', st[1], st[2], st[3]])
+                else:
+                    script.append(['msg', msg(n, CFG_RCPTS[st[1]])])
+                    n += 1
+            out.append((ks, script))
+    for _ in range(n_random):
+        ks = rng.choice(CFG_CHAINS[:7])
+        fpos = [i for i, k in enumerate(ks) if k == 'forward']
+        script = []
+        n = 0
+        for _ in range(rng.randrange(3, 9)):
+            if rng.random() < 0.5:
+                script.append(['rule', rng.choice(fpos), rng.choice(RULE_POOL)])
+            else:
+                script.append(['msg', msg(n, rng.choice(CFG_RCPTS + [gen_rcpts(rng)]))])
+                n += 1
+        if n:
+            out.append((ks, script))
+    return out
+
+
+def snapshot_chain(ks, cfg):
+    return [(k, list(cfg[i]) if k == 'forward' else cfg.get(i)) for i, k in enumerate(ks)]
+
+
+def run_reconfig_script(ctx, ks, script, model_out=None):
+    """one Queue; configuration calls on its policy objects between the messages.  Oracle: every message is written exactly as by a NEW
+    chain configured with what had been configured when it arrived (Forward: the rules added so far, in order)."""
+    case = dict(mode='reconfig', chain=[[k, None] for k in ks], script=script)
+    store = RecordingStore()
+    q = Queue(store)
+    pols = build_policies([(k, [] if k == 'forward' else None) for k in ks])
+    for p in pols:
+        q.add_policy(p)
+    cfg = dict((i, []) for i, k in enumerate(ks) if k == 'forward')
+    used = False
+    changed_after_use = dict(rule=False, set=False)
+    per = []
+    k = 0
+    for st in script:
+        try:
+            if st[0] == 'rule':
+                pat, repl, count = to_rule(st[2])
+                if count:
+                    pols[st[1]].add_mapping(pat, repl, count)
+                else:
+                    pols[st[1]].add_mapping(pat, repl)
+                cfg[st[1]].append(st[2])
+                changed_after_use['rule'] |= used
+                continue
+            if st[0] == 'set':
+                setattr(pols[st[1]], st[2], st[3])
+                cfg[st[1]] = st[3]
+                changed_after_use['set'] |= used
+                continue
+            m = st[1]
+            env, orig = make_input(m)
+            n0 = len(store.written)
+            q.enqueue(env)
+        except Exception as ex:
+            fail(ctx, 'c16:policy-raises', case, '%s(%s) escaped step %r of the script' % (type(ex).__name__, ex, st[:2]))
+            return
+        used = True
+        written = store.written[n0:]
+        got = [full_obs(e, orig) for e in written]
+        per.append([envelope_obs(e, orig) for e in written])
+        chain_now = snapshot_chain(ks, cfg)
+        env2, orig2 = make_input(m)
+        store2 = RecordingStore()
+        q2 = Queue(store2)
+        for p in build_policies(chain_now):
+            q2.add_policy(p)
+        q2.enqueue(env2)
+        want = [full_obs(e, orig2) for e in store2.written]
+        # independent statement for the recipients: first matching rule of the rules added so far
+        exp = []
+        for r in m['rcpts']:
+            for i, kk in enumerate(ks):
+                if kk == 'forward':
+                    r = fwd_one(rules_of(cfg[i]), r)
+            exp.append(r)
+        got_r = [r for x in got for r in x[2]]
+        if collections.Counter(got_r) != collections.Counter(exp) or [x[2] for x in got] != [x[2] for x in want]:
+            differs_from_new = [x[2] for x in got] != [x[2] for x in want]
+            key = ('c16:rule-added-after-first-use-ignored' if changed_after_use['rule'] and differs_from_new
+                   else 'c16:policy-state-leaks-between-messages' if differs_from_new else 'c16:recipient-lost-or-duplicated')
+            fail(ctx, key, case, 'message %d (recipients %r) with the rules %r in force was written to %r; a new policy with these rules writes %r' % (
+                k, m['rcpts'], [[(sp['pat'], sp['repl']) for sp in cfg[i]] for i in sorted(cfg) if ks[i] == 'forward'], [x[2] for x in got], [x[2] for x in want]))
+            return
+        if got != want:
+            key = 'c16:configuration-change-after-first-use-ignored' if changed_after_use['set'] else 'c16:policy-state-leaks-between-messages'
+            fail(ctx, key, case, 'message %d was written with the headers %r; a new chain configured as this one is now writes %r' % (
+                k, [x[3] for x in got], [x[3] for x in want]))
+            return
+        k += 1
+    if model_out is not None:
+        mo = msgs_model_obs(model_out)
+        if any(f for f, _ in mo) or [o for _, o in mo] != per:
+            ctx.mismatch('run_configured', case, per, mo)
+    ctx.evaluated(('reconfig', tuple(ks), repr(script)), nontrivial=changed_after_use['rule'] or changed_after_use['set'])
+    ctx.count('reconfig:%s' % ('rule-after-first-use' if changed_after_use['rule'] else 'attribute-after-first-use' if changed_after_use['set']
+                               else 'no-change-after-first-use'))
+
+
+def cfg_model_job(ks, script):
+    """(subn table over the final rule lists, [(chain snapshot, message) ...]) for c16_cfg"""
+    final = dict((i, []) for i, k in enumerate(ks) if k == 'forward')
+    for st in script:
+        if st[0] == 'rule':
+            final[st[1]].append(st[2])
+    allr = [r for st in script if st[0] == 'msg' for r in st[1]['rcpts']]
+    table = subn_table([(k, final.get(i)) for i, k in enumerate(ks)], allr)
+    cfg = dict((i, []) for i in final)
+    cms = []
+    for st in script:
+        if st[0] == 'rule':
+            cfg[st[1]].append(st[2])
+        elif st[0] == 'msg':
+            m = st[1]
+            cms.append([model_chain(snapshot_chain(ks, cfg)), [m['sender'], list(m['rcpts']), [[h[0], h[1]] for h in m['headers']], m['body']]])
+    return [table, cms]
+
+
+def run_reconfig(ctx, rng):
+    scripts = cfg_scripts(rng, 120 if ctx.quick else 3000)
+    outs = ctx.model.batch('c16_cfg', [cfg_model_job(ks, sc) for ks, sc in scripts])
+    for (ks, sc), o in zip(scripts, outs):
+        run_reconfig_script(ctx, ks, sc, o)
+    ctx.count('configuration-interleaved-with-messages-scripts', len(scripts))
+
+
 # ------------------------------------------------------------------ concurrent enqueue calls on ONE Queue
 def guarded_enqueue(q, env):
     """Queue.enqueue in its own greenlet; an exception is a result, not a traceback on stderr"""
@@ -1088,6 +1293,7 @@ def run(ctx):
     run_cases(ctx, cases)
     run_prepend_chains(ctx, rng)
     run_sequences(ctx, rng)
+    run_reconfig(ctx, rng)
     run_concurrent(ctx, rng)
     probe_generator(ctx)
     ctx.extra['exhaustive'] = True
@@ -1104,7 +1310,7 @@ def replay_messages(ctx, c, chain, msgs):
     print('chain:', chain)
     for k, rs in chain:
         if k == 'forward':
-            print('  forward rules:', [(pat, getattr(repl, '__name__', repl), count) for pat, repl, count in RULESETS[rs]])
+            print('  forward rules:', [(pat, getattr(repl, '__name__', repl), count) for pat, repl, count in rules_of(rs)])
     want = [alone(chain, m) for m in msgs]
     if c['mode'] == 'sequence':
         print('ONE Queue, the same policy objects, %d messages one after the other' % len(msgs))
@@ -1163,12 +1369,63 @@ def replay_messages(ctx, c, chain, msgs):
     return 0
 
 
+def replay_reconfig(ctx, c):
+    """replay of a script of configuration calls and messages on one Queue"""
+    def unhex(x):
+        return bytes.fromhex(x['hex']) if isinstance(x, dict) else x
+    ks = [k for k, _ in c['chain']]
+    script = [st if st[0] != 'msg' else ['msg', dict(st[1], body=unhex(st[1]['body']))] for st in c['script']]
+    print('chain (ONE Queue, the same policy objects throughout):', ks)
+    store = RecordingStore()
+    q = Queue(store)
+    pols = build_policies([(k, [] if k == 'forward' else None) for k in ks])
+    for p in pols:
+        q.add_policy(p)
+    cfg = dict((i, []) for i, k in enumerate(ks) if k == 'forward')
+    for st in script:
+        if st[0] == 'rule':
+            pat, repl, count = to_rule(st[2])
+            print('policy %d (%s).add_mapping(%r, %r, %r)' % (st[1], ks[st[1]], pat, getattr(repl, '__name__', repl), count))
+            pols[st[1]].add_mapping(pat, repl, count)
+            cfg[st[1]].append(st[2])
+        elif st[0] == 'set':
+            print('policy %d (%s).%s = %r' % (st[1], ks[st[1]], st[2], st[3]))
+            setattr(pols[st[1]], st[2], st[3])
+            cfg[st[1]] = st[3]
+        else:
+            m = st[1]
+            env, orig = make_input(m)
+            n0 = len(store.written)
+            print('message: sender %r recipients %r' % (m['sender'], m['rcpts']))
+            try:
+                q.enqueue(env)
+            except Exception as ex:
+                print('  Queue.enqueue RAISED %s(%s)' % (type(ex).__name__, ex))
+                break
+            got = [full_obs(e, orig) for e in store.written[n0:]]
+            env2, orig2 = make_input(m)
+            store2 = RecordingStore()
+            q2 = Queue(store2)
+            for p in build_policies(snapshot_chain(ks, cfg)):
+                q2.add_policy(p)
+            q2.enqueue(env2)
+            want = [full_obs(e, orig2) for e in store2.written]
+            print('  written                          :', [(list(x[2]), list(x[3])) for x in got])
+            print('  new chain, same configuration    :', [(list(x[2]), list(x[3])) for x in want], '' if got == want else '   <-- DIFFERENT')
+    if ctx.model:
+        o = ctx.model.call('c16_cfg', cfg_model_job(ks, script))
+        print('model (each message with the chain as configured at its moment):', [(f, [list(x[2]) for x in ob]) for f, ob in msgs_model_obs(o)])
+    return 0
+
+
 def replay(ctx, case):
     c = case.get('case', case)
 
     def unhex(x):
         return bytes.fromhex(x['hex']) if isinstance(x, dict) else x
     chain = [(k, rs) for k, rs in c['chain']]
+    if c.get('mode') == 'reconfig':
+        return replay_reconfig(ctx, c)
     if c.get('mode') in ('sequence', 'concurrent'):
         return replay_messages(ctx, c, chain, [dict(m, body=unhex(m['body'])) for m in c['messages']])
     headers = [tuple(h) for h in c['headers']]
@@ -1177,7 +1434,7 @@ def replay(ctx, case):
     print('chain:', chain)
     for k, rs in chain:
         if k == 'forward':
-            print('  forward rules:', [(pat, getattr(repl, '__name__', repl), count) for pat, repl, count in RULESETS[rs]])
+            print('  forward rules:', [(pat, getattr(repl, '__name__', repl), count) for pat, repl, count in rules_of(rs)])
             for r in c['rcpts']:
                 print('    %r -> re.subn per rule: %r' % (r, [re.subn(pat, repl, r, count) for pat, repl, count in RULESETS[rs]]))
     print('input recipients:', c['rcpts'])
